@@ -736,7 +736,11 @@ func runNpmOnce(cs *caseSpec, dir string) (o outcome) {
 
 	// re-read
 	outDir := filepath.Dir(outPath)
-	m2, err := rw.Read("package.json", scalibrfs.DirFS(outDir))
+	var m2 guidedremediation.VerifManifest
+	if p, stack := ev.Recover(func() { m2, err = rw.Read("package.json", scalibrfs.DirFS(outDir)) }); p != nil {
+		bad("npm:panic:"+ev.PanicSite(stack), "Read(output) panicked: %v", p)
+		return
+	}
 	if err != nil {
 		bad("npm:output-unreadable", "Read(output): %v", err)
 		return
